@@ -33,7 +33,7 @@ Record case := {
   k_drained : bool               (* before the deadline: attempts + reported drops reached the burst size *)
 }.
 
-Definition latency_class_us : N := 50000.
+Definition latency_class_us : N := 200000.   (* 0.2 s: observed calls take < 1 ms; a blocked call lasts until the watchdog limit (seconds) *)
 
 (* ---- decimal text of an integer (strconv.Itoa) ------------------------------------------------ *)
 Fixpoint dec_digits (fuel : nat) (n : N) (acc : bytes) : bytes :=
@@ -113,7 +113,7 @@ Definition check_case (c : case) : verdict :=
                     (combine (k_jobs c) (k_tags c))) in
   combine_verdicts [
     (* --- the property evaluated on what the implementation did --- *)
-    spec (k_max_latency_us c <? latency_class_us) "an Upload call took 50 ms or longer (blocked)";
+    spec (k_max_latency_us c <? latency_class_us) "an Upload call took 200 ms or longer (blocked)";
     spec (forallb (fun p => snd p <=? 1) (k_delivered c)) "a job was delivered more than once";
     spec (k_drained c && (attempts + k_full_logs c =? n))
          "a job was neither attempted nor reported as dropped (accepted + dropped <> burst, or uploads stopped)";
